@@ -686,6 +686,9 @@ impl Runner {
                         let r = match r {
                             Err(msg) if msg.starts_with("inconclusive:") => {
                                 *l.counters.entry("inconclusive_cases".into()).or_insert(0) += 1;
+                                if std::env::var("VERIF_DEBUG").is_ok() {
+                                    eprintln!("[vf] case {i}: {msg}");
+                                }
                                 Ok(())
                             }
                             other => other,
